@@ -59,7 +59,7 @@ fn s_rep(it: &mut Interp, _p: &Program, n: &Native, a: Args) -> Ret {
     let s = it.check_str(&a, 0, n.name)?;
     let cnt = it.check_int(&a, 1, n.name)?;
     let sep = if arg(&a, 2).is_nil() { LStr::new(b"") } else { it.check_str(&a, 2, n.name)? };
-    if cnt <= 0 {
+    if cnt <= 0 || (s.b.is_empty() && sep.b.is_empty()) {
         return Ok(vec![Value::str(b"")]);
     }
     let total = (s.b.len() as u128 + sep.b.len() as u128) * cnt as u128;
@@ -112,6 +112,14 @@ fn s_format(it: &mut Interp, p: &Program, _n: &Native, a: Args) -> Ret {
     Ok(vec![Value::bytes(crate::strformat::format(it, p, &a)?)])
 }
 
+/// Convert a matcher error into a Lua error (or Unsupported for the backtracking guard).
+fn pat_err(it: &Interp, m: &str) -> LErr {
+    if m == BUDGET_ERR {
+        return Box::new(LuaError::Unsupported("pattern matching needed more than 50M steps".to_string()));
+    }
+    it.lib_error(ErrClass::Other, m)
+}
+
 fn cap_value(ms: &MatchState, c: Cap) -> Value {
     match c {
         Cap::Str(s, e) => Value::str(&ms.src[s..e]),
@@ -121,7 +129,7 @@ fn cap_value(ms: &MatchState, c: Cap) -> Value {
 
 fn push_captures(it: &Interp, ms: &MatchState, s: usize, e: usize, whole: bool, out: &mut Vec<Value>) -> LResult<()> {
     for i in 0..ms.ncaptures(whole) {
-        let c = ms.get_capture(i, s, e).map_err(|m| it.lib_error(ErrClass::Other, &m))?;
+        let c = ms.get_capture(i, s, e).map_err(|m| pat_err(it, &m))?;
         out.push(cap_value(ms, c));
     }
     Ok(())
@@ -149,7 +157,7 @@ fn find_aux(it: &mut Interp, n: &Native, a: Args, find: bool) -> Ret {
     let mut s1 = init;
     loop {
         ms.reprep();
-        let r = ms.do_match(s1, 0).map_err(|m| it.lib_error(ErrClass::Other, &m))?;
+        let r = ms.do_match(s1, 0).map_err(|m| pat_err(it, &m))?;
         if let Some(e) = r {
             let mut out = Vec::new();
             if find {
@@ -187,7 +195,7 @@ fn gmatch_aux(it: &mut Interp, _p: &Program, n: &Native, _a: Args) -> Ret {
     let mut ms = MatchState::new(&s.b, &pat.b);
     while src <= s.b.len() {
         ms.reprep();
-        let r = ms.do_match(src, 0).map_err(|m| it.lib_error(ErrClass::Other, &m))?;
+        let r = ms.do_match(src, 0).map_err(|m| pat_err(it, &m))?;
         if let Some(e) = r {
             if e as i64 != last {
                 let mut up = n.up.borrow_mut();
@@ -228,7 +236,7 @@ fn add_s(it: &Interp, ms: &MatchState, out: &mut Vec<u8>, s: usize, e: usize, re
             } else if c == b'0' {
                 out.extend_from_slice(&ms.src[s..e]);
             } else {
-                let cap = ms.get_capture((c - b'1') as usize, s, e).map_err(|m| it.lib_error(ErrClass::Other, &m))?;
+                let cap = ms.get_capture((c - b'1') as usize, s, e).map_err(|m| pat_err(it, &m))?;
                 match cap_value(ms, cap) {
                     Value::Str(x) => out.extend_from_slice(&x.b),
                     v => out.extend_from_slice(&Interp::tostring_basic(&v)),
@@ -247,7 +255,7 @@ fn s_gsub(it: &mut Interp, p: &Program, n: &Native, a: Args) -> Ret {
     let repl_str = match &repl {
         Value::Str(_) | Value::Int(_) | Value::Flt(_) => Some(it.check_str(&a, 2, n.name)?),
         Value::Table(_) | Value::Func(_) | Value::Native(_) => None,
-        _ => return Err(it.type_arg_error(&a, 2, n.name, "string/function/table")),
+        _ => return Err(it.arg_error(3, "gsub", "string/function/table expected")),
     };
     let max_s = if arg(&a, 3).is_nil() { i64::MAX } else { it.check_int(&a, 3, n.name)? };
     let (anchor, pstart) = if pat.b.first() == Some(&b'^') { (true, 1) } else { (false, 0) };
@@ -258,7 +266,7 @@ fn s_gsub(it: &mut Interp, p: &Program, n: &Native, a: Args) -> Ret {
     let mut count = 0i64;
     while count < max_s {
         ms.reprep();
-        let r = ms.do_match(src, 0).map_err(|m| it.lib_error(ErrClass::Other, &m))?;
+        let r = ms.do_match(src, 0).map_err(|m| pat_err(it, &m))?;
         match r {
             Some(e) if e as i64 != last => {
                 count += 1;
@@ -266,7 +274,7 @@ fn s_gsub(it: &mut Interp, p: &Program, n: &Native, a: Args) -> Ret {
                 if let Some(rs) = &repl_str {
                     add_s(it, &ms, &mut out, src, e, &rs.b)?;
                 } else {
-                    let c0 = ms.get_capture(0, src, e).map_err(|m| it.lib_error(ErrClass::Other, &m))?;
+                    let c0 = ms.get_capture(0, src, e).map_err(|m| pat_err(it, &m))?;
                     let first = cap_value(&ms, c0);
                     let v = match &repl {
                         Value::Table(_) => it.index(p, &repl, &first)?,
